@@ -23,7 +23,7 @@ MIN_EVAL = {"quick": {"edge_node_distances": 70, "edge_face_distances": 70, "sup
 
 def cases(tier, seed):
     rng = np.random.default_rng([seed, 1616])
-    n = 170 if tier == "quick" else 2500
+    n = 170 if tier == "quick" else 15000
     for i in range(n):
         yield {"mesh": gen.random_mesh(rng, 150 if tier == "quick" else 1200, families=["voronoi", "delaunay", "merged", "polyhedron", "cubed_sphere", "latlon_patch", "latlon_global", "clustered"]),
                "dseed": int(rng.integers(0, 10**6)), "lead": [int(x) for x in rng.integers(1, 4, size=int(rng.integers(0, 3)))],
